@@ -226,7 +226,7 @@ def main(argv=None):
 def write_evidence(prop, a, cases, nontrivial, samples, monitors, classes, extra, viol_count, nreal, known_hit, wall, verdict):
     exhaustive = bool(prop.exhaustive(a.tier)) if hasattr(prop, 'exhaustive') else False
     ev = {'property_id': prop.ID, 'tier': a.tier, 'seed': a.seed, 'level': getattr(prop, 'LEVEL', 'exploration'),
-          'coverage': {'evaluations': int(cases), 'distinct_nontrivial': len(nontrivial), 'rule': prop.RULE,
+          'coverage': {'evaluations': int(cases), 'distinct_nontrivial': len(nontrivial), 'rule': prop.RULE + getattr(prop, 'RULE_ALSO', ''),
                        'samples': samples or [], 'monitor_evaluations': dict(sorted(monitors.items())),
                        'input_classes': dict(sorted(classes.items())), 'exhaustive': exhaustive,
                        'stats': extra, 'verdict': verdict,
